@@ -19,3 +19,15 @@ static struct RLV mkview(void) {
   return lv;
 }
 void h_Node_notify_int(void) { struct Node *n = mknode(); struct RLV lv = mkview(); int a; Node__notify_T_int(n, lv, &a); CANARY; }
+void h_Node_notify_int_ref(void) { struct Node *n = mknode(); struct RLV lv = mkview(); int a; Node__notify_T_int_ref(n, lv, &a); CANARY; }
+void h_Node_notify_void(void) { struct Node *n = mknode(); struct RLV lv = mkview(); Node__notify_T_(n, lv); CANARY; }
+static struct SV mkname(void) { struct Str *s = malloc(sizeof(*s)); __CPROVER_assume(s != 0); struct SV v; v.id = s->id; v.src = s; return v; }
+void h_RLV_matches(void) { struct RLV lv = mkview(); _Bool r = RLV__matches(&lv, mkname()); CANARY; }
+void h_RLV_isLeaf(void) { struct RLV lv = mkview(); RLV__isLeaf(&lv); CANARY; }
+void h_RLV_isRegex(void) { struct RLV lv = mkview(); RLV__isRegex(&lv); CANARY; }
+void h_RLV_asString(void) { struct RLV lv = mkview(); RLV__asString(&lv); CANARY; }
+void h_RLV_up(void) { struct RLV lv = mkview(), r; RLV__up(&lv, &r); CANARY; }
+void h_RKey_getLevel(void) { struct RLV lv = mkview(); int i; RKey__getLevel(lv.m_key, i); CANARY; }
+void h_RKey_getLevelCount(void) { struct RLV lv = mkview(); RKey__getLevelCount(lv.m_key); CANARY; }
+void h_Node_exists(void) { struct Node *n = mknode(); struct RLV lv = mkview(); Node__exists(n, lv); CANARY; }
+void h_Node_depth(void) { struct Node *n = mknode(); Node__depth(n); CANARY; }
